@@ -12,6 +12,7 @@ from typing import (
     Iterator,
     Mapping,
     MutableMapping,
+    NoReturn,
     Optional,
     Sequence,
     Tuple,
@@ -302,6 +303,8 @@ def resolver_resolve(
     serialize_error: Optional[Callable[[Any], Any]]
     if error_handler is None:
         serialize_error = None
+    elif resolver.error_type() is NoReturn:
+        serialize_error = identity  # the handler never returns
     elif is_async(error_handler):
         serialize_error = as_async(method_factory(resolver.error_type()).serialize)
     else:
